@@ -41,7 +41,7 @@ func spawnChild(run *evid.Run, name string, timeout time.Duration, env []string,
 	cmd.Stderr = ef
 	cmd.Env = append(os.Environ(), "VERIF_CHILD_EXPORT="+outFile, "VERIF_CHILD_CASE="+caseFile,
 		fmt.Sprintf("VERIF_CHILD_N=%d", n), "VERIF_TIER="+run.Tier, "GOTRACEBACK=all",
-		"GORACE=halt_on_error=0 log_path="+filepath.Join(dir, "race"))
+		"GORACE=halt_on_error=0 exitcode=0 log_path="+filepath.Join(dir, "race"))
 	cmd.Env = append(cmd.Env, env...)
 	cmd.SysProcAttr = &syscall.SysProcAttr{Pdeathsig: syscall.SIGKILL}
 	res := childResult{}
